@@ -66,6 +66,11 @@ def cases(tier: str, seed: int) -> list[dict]:
         for dim in (2, 3):
             for axes in ["default", "orthonormal", "unnormalised"]:
                 out.append({"sc": "aniso", "dim": dim, "axes": axes, "notation": ["voigt", "mandel"][r % 2], "form": ["homog", "Ne", "NePg"][r % 3]})
+            if r == 0:
+                # every (notation, field form) pair once per dimension
+                for notation in ("voigt", "mandel"):
+                    for form in ("homog", "Ne", "NePg"):
+                        out.append({"sc": "aniso", "dim": dim, "axes": ["orthonormal", "unnormalised"][len(out) % 2], "notation": notation, "form": form})
             out.append({"sc": "update", "kind": "aniso", "dim": dim, "ps": False})
         for adim in (2, 3):
             for axes in ["orthonormal", "unnormalised", "per-element", "per-gauss-point"]:
